@@ -43,6 +43,9 @@ func VerifHarness_C19_LocalConfig() {
 	p2 := &packages.Package{Name: "conv", PkgPath: "example.org/b/conv", Syntax: []*ast.File{{Decls: []ast.Decl{
 		verifFuncDecl("Shared", "//goverter:context second", "// goverter:context third"),
 		verifFuncDecl("Plain", "// goverter:map A B"),
+		// (an unexported function can be a custom function when the output is written into its package)
+		verifFuncDecl("makeLabel", "// makeLabel does it.", "// goverter:context fifth"),
+		verifFuncDecl("_hidden", "//goverter:context sixth"),
 	}}, {Decls: []ast.Decl{verifFuncDecl("OtherFile", "/* goverter:context fourth */")}}}}
 	g := &PackageLoader{locals: map[string]map[string]method.LocalOpts{}}
 	// the order of the questions is arbitrary
@@ -65,6 +68,10 @@ func VerifHarness_C19_LocalConfig() {
 			verifAssert("other-settings-are-no-context", len(o2.Context) == 0)
 			o3 := g.localConfig(p2, "OnlyA")
 			verifAssert("function-of-the-other-package-unknown-here", len(o3.Context) == 0)
+			o4 := g.localConfig(p2, "makeLabel")
+			verifAssert("unexported-function-is-read-like-any-other", len(o4.Context) == 1 && o4.Context["fifth"])
+			o5 := g.localConfig(p2, "_hidden")
+			verifAssert("unexported-function-is-read-like-any-other", len(o5.Context) == 1 && o5.Context["sixth"])
 		}
 	}
 	for i := 0; i < 4; i++ {
